@@ -32,6 +32,10 @@ def run_property(prop: str, tier: str, seed: int, root: str, out=print, write_ev
             raise AnalysisError("no obligation was evaluated (vacuous run)")
         return report.finish(run, root, out=out, write_evidence=write_evidence)
     except AnalysisError as exc:
+        if hasattr(exc, "construct") and hasattr(exc, "where"):
+            # a language-level defect on a path this property's analysis has to read (sym.Pitfall)
+            run.ob("LP", exc.construct, False, exc.where, exc.msg)
+            return report.finish(run, root, out=out, write_evidence=write_evidence)
         out(f"ANALYSIS-ERROR property={prop} {exc}")
         run.note(f"ANALYSIS-ERROR: {exc}")
         if run.violations():
